@@ -160,6 +160,31 @@ def _(xp, w):
     return dict(L=xp.sum(y + z * q + q), x=x)
 
 
+# where= masks on pass-through ufuncs whose operands fan out elsewhere, in both summand orders (the mask must be applied per input, and a
+# masked contribution must never become the shared gradient array of two operands)
+def _mk_masked(ufn, order, target):
+    m = np.array([True, False, True, True])
+
+    def f(xp, a, b):
+        fn = getattr(xp, ufn)
+        w_ = np.array([1.0, 2.0, 3.0, 4.0])
+        c_ = np.array([0.5, -1.0, 2.0, 3.0])
+        t = fn(a, b, where=m, out=np.zeros(4)) if ufn != "positive" else fn(a, where=m, out=np.zeros(4))
+        x = b if target == "b" else a
+        term_masked = xp.sum(w_ * t)
+        term_other = xp.sum(c_ * x * x)
+        L = (term_other + term_masked) if order == "other-first" else (term_masked + term_other)
+        return dict(L=L, t=t)
+
+    return f
+
+
+for _uf in ("add", "subtract", "multiply", "positive", "maximum"):
+    for _ord in ("other-first", "masked-first"):
+        for _tg in ("a", "b"):
+            P.append((f"masked-ufunc-fanout/{_uf}/{_ord}/{_tg}", {"pure", "generated", "mask"}, ((4,), (4,)), _mk_masked(_uf, _ord, _tg)))
+
+
 @prog("diamond-transposed-max", "pure views", (2, 3), (2, 3))
 def _(xp, a, c):
     g = a * c
@@ -546,7 +571,7 @@ def _mk_dag(k):
     n_nodes = int(r.integers(4, 11))
     plan = []
     for i in range(n_nodes):
-        kind = ["mul", "add", "sub", "sin", "exp", "tanh", "square", "matmul"][int(r.integers(0, 8))]
+        kind = ["mul", "add", "sub", "sin", "exp", "tanh", "square", "matmul", "masked-add", "masked-sub"][int(r.integers(0, 10))]
         lo = 0
         a = int(r.integers(lo, i + 2))  # index into [w0, w1, node0, ...]
         b = int(r.integers(lo, i + 2)) if r.uniform() > 0.35 else a  # repeated operand with probability .35
@@ -572,8 +597,11 @@ def _mk_dag(k):
                 v = xp.tanh(x * c) * y
             elif kind == "square":
                 v = x * x * c
-            else:
+            elif kind == "matmul":
                 v = xp.matmul(x, y) * 0.25
+            else:
+                mk_ = np.array([[True, False], [True, True]]) if c > 0.5 else np.array([[False, True], [True, False]])
+                v = (xp.add if kind == "masked-add" else xp.subtract)(x, y, where=mk_, out=np.zeros((2, 2)))
             vals.append(v)
             named[f"n{i}"] = v
         L = None
